@@ -14,7 +14,8 @@ package bitcoin_reader
 
 //@ func DiscardInput
 //@   ensures [C14.discard-exact] result == nil ==> consumed(r) == old(consumed(r)) + n
-//@   ensures [C14.discard-monotone] consumed(r) >= old(consumed(r))
+//@   ensures [C14.discard-monotone] consumed(r) >= old(consumed(r)) && consumed(r) <= old(consumed(r)) + n
+//@   ensures [C14.failure-marked] result != nil ==> failed(r)
 //@   safety [C15]
 //@   modifies reads(r)
 //@   loop 1
@@ -25,6 +26,7 @@ package bitcoin_reader
 //@   requires [C14.counter-not-ahead,C15.counter-not-ahead] count(counter) <= n
 //@   ensures [C14.discard-rest] result == nil ==> consumed(r) == old(consumed(r)) + (n - old(count(counter)))
 //@   ensures [C14.discard-monotone] consumed(r) >= old(consumed(r))
+//@   ensures [C14.failure-marked] result != nil ==> failed(r)
 //@   safety [C15]
 //@   modifies reads(r)
 
@@ -153,7 +155,7 @@ package bitcoin_reader
 //@   requires n != nil && n.handlers != nil
 //@   ensures [C13.accept-sets-ready,C03.accept-sets-ready] flag(n.isReady) && flag(n.verified)
 //@   ensures [C13.verify-only-disconnects] old(n.isVerifyOnly) ==> result == nil && ghostv("msgs", n) == old(ghostv("msgs", n)) && ghostv("stops", n) == old(ghostv("stops", n)) + 1
-//@   modifies all
+//@   modifies allheap, ghost("msgs"), ghost("stops")
 
 //@ trusted func (*BitcoinNode).sendInitialHeaderRequest
 //@   modifies ghost("msgs"), n.lastHeaderRequest, n.Mutex
@@ -168,11 +170,11 @@ package bitcoin_reader
 //@   modifies nothing
 //@ iface github.com/tokenized/pkg/wire.Message.BtcDecode
 //@   params msg, r, pver
-//@   modifies allheap
+//@   modifies typesof(wire), allelems(byte)
 
 //@ func readPayload
 //@   ensures [C14.payload-exact] result1 == nil ==> consumed(r) == old(consumed(r)) + length && len(result0) == length
-//@   ensures [C14.payload-monotone] consumed(r) >= old(consumed(r))
+//@   ensures [C14.payload-monotone] consumed(r) >= old(consumed(r)) && consumed(r) <= old(consumed(r)) + length
 //@   safety [C15]
 //@   modifies reads(r)
 //@   loop 1
@@ -182,6 +184,114 @@ package bitcoin_reader
 //@ func readMessage
 //@   requires header != nil && r != nil
 //@   ensures [C14.message-exact] result == nil ==> consumed(r) == old(consumed(r)) + old(header.Length)
-//@   ensures [C14.message-monotone] consumed(r) >= old(consumed(r))
+//@   ensures [C14.message-monotone] consumed(r) >= old(consumed(r)) && consumed(r) <= old(consumed(r)) + old(header.Length)
+//@   safety [C15]
+//@   modifies typesof(wire), allelems(byte), reads(r)
+
+// ---------------------------------------------------------------------------------------------------
+// Message handlers: framing (C14) and crash freedom (C15)
+
+//@ pure func nodeOK(n *BitcoinNode) bool = n != nil && n.headers != nil && n.peers != nil && n.config != nil && n.handlers != nil && n.handshakeChannel != nil && !closed(n.handshakeChannel) && isflag(n.isReady) && isflag(n.handshakeIsComplete) && isflag(n.isStopped) && isflag(n.verified)
+//@ static writers BitcoinNode.handshakeChannel : NewBitcoinNode [C15]
+
+// Every installed handler is assumed to satisfy this contract where it is called through the handler table
+// (handleMessage, handleExtended); each handler of this package is verified against the same clauses below.
+//@ functype MessageHandlerFunction
+//@   params ctx, header, r
+//@   requires header != nil && r != nil
+//@   ensures [C14.framing] result == nil && !failed(r) ==> consumed(r) == old(consumed(r)) + old(header.Length)
+//@   ensures consumed(r) >= old(consumed(r)) && header.Length == old(header.Length)
+//@   ensures ghostv("dispatched", 0) == old(ghostv("dispatched", 0)) + 1
+//@   modifies allheap, reads(r), ghost("dispatched"), ghost("msgs"), ghost("stops")
+
+// environment interfaces used by the handlers
+//@ iface github.com/tokenized/bitcoin_reader.HeaderRepository.VerifyHeader
+//@   params repo, ctx, header
+//@   ensures ghostv("verifyOK", repo) == ite(result == nil, 1, 0)
+//@   modifies ghost("verifyOK")
+//@ iface github.com/tokenized/bitcoin_reader.HeaderRepository.ProcessHeader
+//@   params repo, ctx, header
+//@   modifies allheap
+//@ iface github.com/tokenized/bitcoin_reader.HeaderRepository.HashHeight
+//@   params repo, hash
+//@   modifies nothing
+//@ iface github.com/tokenized/bitcoin_reader.PeerRepository.Add
+//@   params repo, ctx, address
+//@   modifies allheap
+//@ iface github.com/tokenized/bitcoin_reader.PeerRepository.UpdateScore
+//@   params repo, ctx, address, delta
+//@   modifies allheap
+
+//@ func (*BitcoinNode).handleVersion
+//@   requires nodeOK(n) && header != nil && r != nil
+//@   ensures [C14.framing] result == nil && !failed(r) ==> consumed(r) == old(consumed(r)) + old(header.Length)
 //@   safety [C15]
 //@   modifies allheap, reads(r)
+//@ func (*BitcoinNode).handleVerack
+//@   requires nodeOK(n) && header != nil && r != nil
+//@   ensures [C14.framing] result == nil && !failed(r) ==> consumed(r) == old(consumed(r)) + old(header.Length)
+//@   safety [C15]
+//@   modifies allheap, reads(r)
+//@ func (*BitcoinNode).handlePing
+//@   requires nodeOK(n) && header != nil && r != nil
+//@   ensures [C14.framing] result == nil && !failed(r) ==> consumed(r) == old(consumed(r)) + old(header.Length)
+//@   ensures [C14.pong] result == nil ==> ghostv("msgs", n) == old(ghostv("msgs", n)) + 1
+//@   safety [C15]
+//@   modifies allheap, reads(r), ghost("msgs")
+//@ func (*BitcoinNode).handlePong
+//@   requires nodeOK(n) && header != nil && r != nil
+//@   ensures [C14.framing] result == nil && !failed(r) ==> consumed(r) == old(consumed(r)) + old(header.Length)
+//@   safety [C15]
+//@   modifies allheap, reads(r)
+//@ func (*BitcoinNode).handleReject
+//@   requires nodeOK(n) && header != nil && r != nil
+//@   ensures [C14.framing] result == nil && !failed(r) ==> consumed(r) == old(consumed(r)) + old(header.Length)
+//@   safety [C15]
+//@   modifies allheap, reads(r)
+//@ func (*BitcoinNode).handleAddress
+//@   requires nodeOK(n) && header != nil && r != nil
+//@   ensures [C14.framing] result == nil && !failed(r) ==> consumed(r) == old(consumed(r)) + old(header.Length)
+//@   modifies allheap, reads(r)
+//@   loop 1
+//@     invariant consumed(r) == atentry(consumed(r))
+//@ func (*BitcoinNode).handleProtoconf
+//@   requires nodeOK(n) && header != nil && r != nil
+//@   ensures [C14.framing] result == nil && !failed(r) ==> consumed(r) == old(consumed(r)) + old(header.Length)
+//@   safety [C15]
+//@   modifies allheap, reads(r)
+
+//@ func (*BitcoinNode).handleGetAddresses
+//@   requires nodeOK(n) && header != nil && r != nil
+//@   ensures [C14.framing-empty] consumed(r) == old(consumed(r))
+//@   modifies allheap, ghost("msgs")
+
+// handleExtended: 12 bytes command + 8 bytes length, then exactly the extended length (enforced by the deferred
+// discard); nothing is dispatched while the node is not ready (C13).
+//@ func (*BitcoinNode).handleExtended
+//@   requires nodeOK(n) && header != nil && r != nil
+//@   ensures [C14.framing-extended] result == nil && !failed(r) ==> consumed(r) == old(consumed(r)) + 20 + header.Length
+//@   ensures [C13.not-ready-no-dispatch] !old(flag(n.isReady)) ==> ghostv("dispatched", 0) == old(ghostv("dispatched", 0))
+//@   assumepre counter-not-ahead
+//@   safety [C15]
+//@   modifies allheap, reads(r), ghost("dispatched"), ghost("msgs"), ghost("stops")
+
+// handleHeadersVerify: accept() only after the headers repository verified the first header (C03, C13).
+//@ func (*BitcoinNode).handleHeadersVerify
+//@   requires nodeOK(n) && header != nil && r != nil
+//@   ensures [C14.framing] result == nil && !failed(r) && old(flag(n.handshakeIsComplete)) ==> consumed(r) == old(consumed(r)) + old(header.Length)
+//@   ensures [C03.accept-gated,C13.accept-gated] !old(flag(n.isReady)) && flag(n.isReady) ==> ghostv("verifyOK", old(n.headers)) == 1
+//@   ensures [C03.unverified-stopped,C13.unverified-stopped] result == nil && old(flag(n.handshakeIsComplete)) && !flag(n.isReady) && !failed(r) ==> ghostv("stops", n) > old(ghostv("stops", n))
+//@   assumepre counter-not-ahead
+//@   safety [C15]
+//@   modifies allheap, reads(r), ghost("msgs"), ghost("stops"), ghost("verifyOK")
+
+//@ iface github.com/tokenized/bitcoin_reader.HeaderRepository.Height
+//@   params repo
+//@   modifies nothing
+
+//@ functype NodeHasDataFunction
+//@   params ctx, node
+//@   modifies nothing
+//@ functype HandleBlock
+//@   params ctx, header, txCount, txChannel
+//@   modifies allheap
